@@ -48,6 +48,11 @@ def preprocess(repo, rel):
     return p.stdout
 
 
+def fold_verify(text):
+    """`VERIFY(x)` after `g++ -E` -> `VERIFY(x)` again (the expansion contains string literals)"""
+    return re.sub(r"\(\(void\)\(!\((.*?)\) && Debug::printf\(\"[^\n]*?\"\) && \(__builtin_trap\(\), 1\)\)\);", r"VERIFY(\1);", text)
+
+
 def balanced(src, start, op="{", cl="}"):
     depth = 0
     for i in range(start, len(src)):
@@ -91,7 +96,7 @@ def tokenize(text):
     return toks
 
 
-TYPE_WORDS = {"usize", "ssize", "int", "uint", "uint32", "uint64", "int64", "int32", "uint16", "bool", "char", "byte", "unsigned",
+TYPE_WORDS = {"epoll_event", "usize", "ssize", "int", "uint", "uint32", "uint64", "int64", "int32", "uint16", "bool", "char", "byte", "unsigned",
               "long", "short", "size_t", "ssize_t", "const", "ClientImpl", "Socket", "void"}
 INT_TYPES = {"usize", "ssize", "int", "uint", "uint32", "uint64", "int64", "int32", "uint16", "size_t", "ssize_t", "long", "unsigned"}
 
@@ -181,6 +186,21 @@ class Parser:
         while j < len(self.t) and (re.match(r"[A-Za-z_]\w*$", self.t[j]) or self.t[j] == "::"):
             words.append(self.t[j])
             j += 1
+            if j < len(self.t) and self.t[j] == "<" and words[-1][0].isupper():
+                # template arguments of a type name: `HashMap<Socket*, uint>::Iterator`
+                depth, q = 0, j
+                while q < len(self.t):
+                    if self.t[q] == "<":
+                        depth += 1
+                    elif self.t[q] == ">":
+                        depth -= 1
+                        if depth == 0:
+                            break
+                    elif self.t[q] in (";", "{", "}", "(", ")"):
+                        q = len(self.t)
+                    q += 1
+                if q < len(self.t) and q + 1 < len(self.t) and (self.t[q + 1] == "::" or re.match(r"[A-Za-z_&*]", self.t[q + 1])):
+                    j = q + 1
         names = [w for w in words if w != "::"]
         ref = ""
         k = j
@@ -358,7 +378,9 @@ class Env:
         self.outs = dict(outs or {})     # out-parameter -> lean text of its current value (Option Int)
 
     def copy(self):
-        return Env(self.locs, self.state, self.outs)
+        e = Env(self.locs, self.state, self.outs)
+        e.shadowed = set(getattr(self, "shadowed", set()))
+        return e
 
 
 class Tr:
@@ -602,9 +624,19 @@ class Tr:
         st, rest = stmts[0], stmts[1:]
         k = st[0]
         if k == "block":
-            for d in st[1]:
-                pass
-            return self.seq(list(st[1]) + list(rest), env, K)
+            outer = dict(env.locs)
+
+            def leave(e2):
+                # names declared inside the block go out of scope (an outer variable they shadowed is visible again)
+                for n in [n for n in e2.locs if n not in outer]:
+                    del e2.locs[n]
+                for n in getattr(e2, "shadowed", set()) & set(outer):
+                    e2.locs[n] = outer[n]
+                e2.shadowed = set()
+                return self.seq(rest, e2, K)
+            Kb = dict(K)
+            Kb["next"] = leave
+            return self.seq(list(st[1]), env, Kb)
         if k == "if":
             c, tc = self.tx(st[1], env)
             cb = self.as_bool(c, tc)
@@ -667,8 +699,10 @@ class Tr:
 
     def decl(self, st, rest, env, K):
         _, tname, ref, var, init = st
-        if var in env.locs or var in self.self_names:
+        if var in self.self_names:
             self.refuse(f"`{var}` declared twice")
+        if var in env.locs:
+            env.shadowed = getattr(env, "shadowed", set()) | {var}
         if ref == "&" and tname.split()[-1] == "ClientImpl" and init is not None:
             # `ClientImpl &client = *(ClientImpl *)pollEvent.socket;`
             if init[0] == "un" and init[1] == "*" and self.is_self_expr(init[2]):
@@ -902,6 +936,313 @@ class Tr:
         self.refuse(f"expression statement {e[0]}")
 
 
+# ---- table-driven machines (Poll::set / remove, the timer loop and the closing loop of run()) -----------------------
+class GTr(Tr):
+    """Primitives are looked up by the RENDERED expression: names / members / calls are written as a dotted key in which a
+    local that denotes a register of the machine is written by its kind (`@timer`, `@sock`, `@client`: references and pointers
+    as cells; `%sock`, `%sel`: iterators as the result of the find — a boolean), so renamed locals do not matter.  Arguments that
+    are not such tokens are `_` in the key and are translated as expressions."""
+
+    def __init__(self, fn, tables, params):
+        super().__init__(fn, "gen")
+        self.T = tables
+        self.params = params          # C++ parameter name -> (lean text, type) or ("key", token)
+        self.regs = {}
+
+    def token(self, e, env):
+        k = e[0]
+        if k == "name":
+            n = e[1]
+            if n in env.locs:
+                ty = env.locs[n][1]
+                if ty.startswith("reg:"):
+                    return "@" + ty[4:]
+                if ty.startswith("iter:"):
+                    return "%" + ty[5:]
+                if ty == "struct":
+                    return "$" + ty
+                return None
+            if n in self.params and self.params[n][0] == "key":
+                return self.params[n][1]
+            if n in self.params:
+                return None
+            return n.split("::")[-1] if n.startswith("Private::") else n
+        if k == "num":
+            return str(e[1])
+        if k == "member":
+            b = self.token(e[1], env)
+            return None if b is None else b + "." + e[2]
+        if k == "call":
+            b = self.token(e[1], env)
+            if b is None:
+                return None
+            return b + "(" + ",".join(self.argtok(a, env) for a in e[2]) + ")"
+        if k == "un" and e[1] in ("*", "&"):
+            b = self.token(e[2], env)
+            return None if b is None else e[1] + b
+        if k == "cast":
+            return self.token(e[2], env)
+        return None
+
+    def argtok(self, a, env):
+        t = self.token(a, env)
+        if t is not None and (t in self.T.get("argtokens", ()) or (t[0] in "@%&" and "." not in t)):
+            return t
+        return "_"
+
+    def fill(self, tmpl, e, env, v=None):
+        """instantiate a template: {s} the state, {a0}.. the `_` arguments of the call `e` in order, {v} a value"""
+        vals = {"s": env.state}
+        if v is not None:
+            vals["v"] = v
+        if e is not None and e[0] == "call":
+            i = 0
+            for a in e[2]:
+                if self.argtok(a, env) == "_":
+                    t, ty = self.tx(a, env)
+                    vals[f"a{i}"] = self.as_ty(t, ty, "int") if ty == "zero" else t
+                    i += 1
+        return tmpl.format(**vals)
+
+    def tx(self, e, env):
+        k = e[0]
+        if k == "name" and e[1] in self.params and self.params[e[1]][0] != "key":
+            return self.params[e[1]]
+        if k == "name" and e[1] in env.locs:
+            t, ty = env.locs[e[1]]
+            if ty == "undef":
+                self.refuse(f"`{e[1]}` is read before it is assigned")
+            if ty.startswith("reg:") and ("@" + ty[4:]) in self.T.get("cells", {}):
+                g, _, cty = self.T["cells"]["@" + ty[4:]]
+                return (g.format(s=env.state), cty)
+            return (t, ty)
+        if k in ("name", "member", "call") or (k == "un" and e[1] == "*"):
+            key = self.token(e, env)
+            if key is not None:
+                if key in self.T.get("cells", {}):
+                    g, _, cty = self.T["cells"][key]
+                    return (g.format(s=env.state), cty)
+                if key in self.T.get("pure", {}):
+                    tmpl, ty = self.T["pure"][key]
+                    return (self.fill(tmpl, e, env), ty)
+                if k != "un":
+                    self.refuse(f"unknown expression `{key}`")
+        if k == "bin" and e[1] in ("==", "!="):
+            for a, b in ((e[2], e[3]), (e[3], e[2])):
+                if a[0] == "name" and a[1] in env.locs and env.locs[a[1]][1].startswith("iter:"):
+                    kind = env.locs[a[1]][1][5:]
+                    if self.token(b, env) == self.T["iter_end"][kind]:
+                        v = env.locs[a[1]][0]
+                        return (v if e[1] == "!=" else f"(!{v})", "bool")
+                    self.refuse("an iterator is compared with something that is not the end of its table")
+        return super().tx(e, env)
+
+    def as_bool(self, t, ty):
+        if ty.startswith("reg:") and ty[4:] in self.T.get("regbool", {}):
+            return self.T["regbool"][ty[4:]].format(s=t)
+        return super().as_bool(t, ty)
+
+    def decl(self, st, rest, env, K):
+        _, tname, ref, var, init = st
+        if var in env.locs:
+            env.shadowed = getattr(env, "shadowed", set()) | {var}
+        if init is None:
+            if tname in self.T.get("structs", ()):
+                env.locs[var] = (var, "struct")
+                return self.seq(rest, env, K)
+            return super().decl(st, rest, env, K)
+        key = self.token(init, env)
+        b = self.T.get("binders", {}).get(key)
+        if b is not None:
+            eff, val, lty = b
+            body_env = env
+            if lty.startswith("reg:"):
+                if eff is None:
+                    body_env.locs[var] = (body_env.state, lty)
+                    return self.seq(rest, body_env, K)
+                s2 = self.fresh("s")
+                text = self.fill(eff, init, env)
+                body_env.state = s2
+                body_env.locs[var] = (s2, lty)
+                return self.let(s2, text, self.seq(rest, body_env, K))
+            v = self.fresh(var)
+            text = self.fill(val, init, env)
+            body_env.locs[var] = (v, lty)
+            return self.let(v, text, self.seq(rest, body_env, K))
+        if ref:
+            self.refuse(f"declaration of `{tname} {ref}{var}` from `{key}`")
+        return super().decl(st, rest, env, K)
+
+    def tx_reg(self, name, env):
+        return env.locs[name]
+
+    def effect(self, e, rest, env, K):
+        s = env.state
+
+        def then(text):
+            s2 = self.fresh("s")
+            env.state = s2
+            return self.let(s2, text, self.seq(rest, env, K))
+        if e[0] == "assign":
+            op, lhs, rhs = e[1], e[2], e[3]
+            key = self.token(lhs, env)
+            if lhs[0] == "name" and lhs[1] in env.locs and env.locs[lhs[1]][1].startswith("reg:"):
+                key = "@" + env.locs[lhs[1]][1][4:]
+            if key is not None and key in self.T.get("cells", {}):
+                g, st_, cty = self.T["cells"][key]
+                t, ty = self.tx(rhs, env)
+                cur = g.format(s=s)
+                if op == "=":
+                    val = self.as_ty(t, ty, cty)
+                elif op in ("|=", "&=") and cty in ("pf", "nf"):
+                    f = {"pf": {"|=": "Flags.union", "&=": "finter"}, "nf": {"|=": "NBits.union", "&=": "NBits.inter"}}[cty][op]
+                    val = f"({f} {cur} {self.as_ty(t, ty, cty)})"
+                elif op in ("+=", "-=") and cty == "int" and ty in ("int", "zero"):
+                    val = f"({cur} {op[0]} {t})"
+                else:
+                    self.refuse(f"`{op}` on `{key}`")
+                return then(st_.format(s=s, v=val))
+            if key is not None and key in self.T.get("ignored_assign", {}):
+                want = self.T["ignored_assign"][key]
+                if want is not None and self.token(rhs, env) != want:
+                    t, ty = self.tx(rhs, env)
+                    if want != "int" or ty not in ("int", "zero"):
+                        self.refuse(f"`{key}` is assigned something else than `{want}`")
+                return self.seq(rest, env, K)
+            if key is not None and key.startswith("$struct."):
+                # a field of a local struct (`ev.events = …`): a local of its own
+                t, ty = self.tx(rhs, env)
+                v = self.fresh("f")
+                env.locs[key] = (v, ty)
+                return self.let(v, t, self.seq(rest, env, K))
+            return super().effect(e, rest, env, K)
+        if e[0] == "call":
+            key = self.token(e, env)
+            if key is not None and key.startswith("VERIFY("):
+                return self.verify(e, rest, env, K, then)
+            if key in self.T.get("effect", {}):
+                return then(self.fill(self.T["effect"][key], e, env))
+            self.refuse(f"unknown call `{key}`")
+        return super().effect(e, rest, env, K)
+
+    def verify(self, e, rest, env, K, then):
+        """`VERIFY(epoll_ctl(fd, OP, <descriptor>, &ev) == 0);` -> P.epollCtl s OP <mask in ev.events>"""
+        a = e[2][0] if len(e[2]) == 1 else None
+        if not (a and a[0] == "bin" and a[1] == "==" and a[3] == ("num", 0) and a[2][0] == "call" and a[2][1] == ("name", "epoll_ctl")
+                and len(a[2][2]) == 4 and a[2][2][1][0] == "num"):
+            self.refuse("VERIFY of something that is not `epoll_ctl(fd, op, s, &ev) == 0`")
+        opn = a[2][2][1][1]
+        ev = env.locs.get("$struct.events")
+        mask = ev[0] if ev and ev[1] == "nf" else "({} : NBits)"
+        if opn != 2 and not ev:
+            self.refuse("epoll_ctl with an event mask that was not set")
+        return then(f"P.epollCtl {env.state} {opn} {mask}")
+
+
+POLL_TABLES = {
+    "argtokens": ("SocketInfo()", "@sock.socket"),
+    "structs": ("epoll_event",),
+    "iter_end": {"sock": "sockets.end()", "sel": "selectedSockets.end()"},
+    "pure": {"&socket.s": ("(P.sockFd {s})", "int"), "mapEvents(_)": ("(mapEvents {a0})", "nf")},
+    "cells": {"@sock.events": ("(P.sockEvents {s})", "P.setSockEvents {s} {v}", "pf"),
+              "@selref": ("(P.selEvents {s})", "P.setSelEvents {s} {v}", "pf"),
+              "*%sel": ("(P.selEvents {s})", "P.setSelEvents {s} {v}", "pf"),
+              "@sock.s": ("(P.sockFd {s})", "{s}", "int")},
+    "ignored_assign": {"@sock.socket": "&&socket", "$struct.data.ptr": "&@sock"},
+    "binders": {"sockets.find(&&socket)": (None, "(P.sockFind {s})", "iter:sock"),
+                "selectedSockets.find(@sock.socket)": (None, "(P.selFind {s})", "iter:sel"),
+                "selectedSockets.find(&&socket)": (None, "(P.selFind {s})", "iter:sel"),
+                "*%sock": (None, None, "reg:sock"), "*%sel": (None, None, "reg:selref"),
+                "sockets.append(&&socket,SocketInfo())": ("P.sockAppend {s}", None, "reg:sock")},
+    "effect": {"selectedSockets.remove(%sel)": "P.selRemove {s}", "selectedSockets.remove(&&socket)": "P.selRemove {s}",
+               "sockets.remove(%sock)": "P.sockRemove {s}", "sockets.remove(&&socket)": "P.sockRemove {s}"},
+}
+TIMER_TABLES = {
+    "pure": {"_queuedTimers.begin().key()": ("(P.queueFrontKey {s})", "int"), "@timer.interval": ("(P.timerInterval {s})", "int")},
+    "cells": {"@timer.executionTime": ("(P.timerExec {s})", "P.setTimerExec {s} {v}", "int")},
+    "binders": {"_queuedTimers.front()": ("P.queueFront {s}", None, "reg:timer")},
+    "regbool": {"timer": "(P.curIsUser {s})"},
+    "effect": {"_queuedTimers.removeFront()": "P.queueRemoveFront {s}", "_queuedTimers.insert(_,@timer)": "P.queueInsertCur {s} {a0}",
+               "_queuedTimers.insert(_,0)": "P.queueInsertDefault {s} {a0}", "@timer.callback.onActivated()": "P.onActivated {s}"},
+    "argtokens": ("0",),
+}
+CLOSING_TABLES = {
+    "pure": {"_closingClients.isEmpty()": ("(P.closingIsEmpty {s})", "bool"), "@client._callback": ("(P.hasCallback {s})", "bool"),
+             "@client._removed": ("(P.removedFlag {s})", "bool")},
+    "binders": {"*_closingClients.front()": ("P.closingFront {s}", None, "reg:client")},
+    "effect": {"_closingClients.removeFront()": "P.closingRemoveFront {s}", "@client._callback.onClosed()": "P.onClosed {s}",
+               "deleteClient(@client)": "P.deleteClient {s}"},
+}
+
+
+def tr_poll_fn(fn, params, body, nparams):
+    names = param_names(params, fn, nparams)
+    pm = {names[0]: ("key", "&socket")}
+    if nparams == 2:
+        pm[names[1]] = ("p1", "pf")
+    t = GTr(fn, POLL_TABLES, pm)
+    K = {"next": lambda e: e.state, "ret": lambda e, v: e.state if v is None else t.refuse("value returned from a void function")}
+    return t.seq(parse_body(fold_verify(body), fn), Env(), K)
+
+
+def split_header(h):
+    parts, depth, cur = [], 0, ""
+    for ch in h:
+        if ch in "([":
+            depth += 1
+        elif ch in ")]":
+            depth -= 1
+        if ch == ";" and depth == 0:
+            parts.append(cur)
+            cur = ""
+        else:
+            cur += ch
+    return parts + [cur]
+
+
+def loop_iteration(fn, text, kw, tables, params, pre_text=""):
+    """one iteration of the first `for` / `while` loop in `text`, as statements: [declarations before the loop] [if (!cond)
+    break;] body — falling out of the body or `continue` = the loop goes round (true), `break` = it is left (false).
+    `for (; c; x = e)` is only accepted when `T x = e;` with the same `e` stands right before the loop (so that the value of `x`
+    at the loop head is a function of the state)."""
+    m = re.search(r"\b" + kw + r"\s*\(", text)
+    if not m:
+        raise Refuse(f"{fn}: no `{kw}` loop found")
+    hend = balanced(text, m.end() - 1, "(", ")")
+    header = text[m.end():hend - 1]
+    k = hend
+    while text[k].isspace():
+        k += 1
+    if text[k] != "{":
+        raise Refuse(f"{fn}: loop body is not a block")
+    bend = balanced(text, k)
+    body = parse_body(text[k + 1:bend - 1], fn)
+    pre = parse_body(pre_text, fn) if pre_text.strip() else []
+    if kw == "while":
+        cond = Parser(tokenize(header), fn).expr()
+        stmts = pre + [("if", ("un", "!", cond), ("break",), None)] + body
+    else:
+        parts = split_header(header)
+        if len(parts) != 3:
+            raise Refuse(f"{fn}: for header")
+        init, cond, inc = [x.strip() for x in parts]
+        if init:
+            raise Refuse(f"{fn}: for loop with an init statement")
+        stmts = list(pre)
+        if cond:
+            stmts.append(("if", ("un", "!", Parser(tokenize(cond), fn).expr()), ("break",), None))
+        stmts += body
+        if inc:
+            ie = Parser(tokenize(inc), fn).expr()
+            ok = ie[0] == "assign" and ie[1] == "=" and any(d[0] == "decl" and ("name", d[3]) == ie[2] and d[4] == ie[3] for d in pre)
+            if not ok:
+                raise Refuse(f"{fn}: the increment of the for loop is not the re-computation of a variable initialised right before the loop")
+    t = GTr(fn, tables, params)
+    K = {"next": lambda e: f"({e.state}, true)", "cont": lambda e: f"({e.state}, true)", "brk": lambda e: f"({e.state}, false)",
+         "ret": lambda e, v: t.refuse("return inside the loop")}
+    return t.seq(stmts, Env(), K), (m.start(), bend)
+
+
 # ---- the translated units -------------------------------------------------------------------------------------------
 def outs_text(env, names):
     return "".join(f", {env.outs.get(n, '(none : Option Int)')}" for n in names)
@@ -1106,6 +1447,27 @@ def generate(repo, out_path):
     defs.append(("mapEvents", "(p0 : Flags) : NBits", tr_bits("mapEvents", p, b, ["pf"], "nf")))
     p, b = extract(sock, "Poll::Private::unmapEvents", r"uint\s+" + M + "unmapEvents")
     defs.append(("unmapEvents", "(p0 : NBits) (p1 : Flags) : Flags", tr_bits("unmapEvents", p, b, ["nf", "pf"], "pf")))
+    p, b = extract(sock, "Poll::Private::set", r"void\s+" + M + "set")
+    defs.append(("pollSet", "{σ : Type} (P : PollPrims σ) (p1 : Flags) (s0 : σ) : σ", tr_poll_fn("Poll::Private::set", p, b, 2)))
+    p, b = extract(sock, "Poll::Private::remove", r"void\s+" + M + "remove")
+    defs.append(("pollRemove", "{σ : Type} (P : PollPrims σ) (s0 : σ) : σ", tr_poll_fn("Poll::Private::remove", p, b, 1)))
+    # the timer loop and the closing loop of run(): one iteration each
+    mnow = re.search(r"int64\s+(\w+)\s*=\s*Time\s*::\s*ticks\s*\(\s*\)\s*;", runb)
+    if not mnow:
+        raise Refuse("run(): `int64 now = Time::ticks();` not found")
+    after_now = runb[mnow.end():]
+    mfor = re.search(r"\bfor\s*\(", after_now)
+    mwh = re.search(r"\bwhile\s*\(", after_now)
+    if not mfor or not mwh or mwh.start() < mfor.start():
+        raise Refuse("run(): timer loop (for) followed by the closing loop (while) not found")
+    pre = after_now[:mfor.start()]
+    text, (a0, a1) = loop_iteration("run(): timer loop", after_now, "for", TIMER_TABLES, {mnow.group(1): ("now", "int")}, pre)
+    defs.append(("timerIter", "{σ : Type} (P : TimerPrims σ) (now : Int) (s0 : σ) : σ × Bool", text))
+    between = after_now[a1:mwh.start()]
+    if between.strip():
+        raise Refuse("run(): code between the timer loop and the closing loop")
+    text, _ = loop_iteration("run(): closing loop", after_now[a1:], "while", CLOSING_TABLES, {})
+    defs.append(("closingIter", "{σ : Type} (P : ClosingPrims σ) (s0 : σ) : σ × Bool", text))
     parts = ["/- generated by tools/gen_server.py from src/Socket/Server.cpp and src/Socket/Socket.cpp (after g++ -E) - do not edit -/",
              "import Nstd.Server.TrRt", "", "set_option linter.unusedVariables false", "",
              "namespace Nstd.Generated.ServerTr", "open Nstd.Server.Tr", "open Nstd.Server.C14 (Flags)", ""]
